@@ -3,17 +3,18 @@
 # exit 1 + VIOLATION line if it reproduces, 0 if not, 2 on harness trouble.
 set -u
 f="$(realpath "${1:?replay file}")"
-cd /verif || exit 2
+cd "$(dirname "$(realpath "$0")")" || exit 2
+export VERIF_DIR="$PWD"
 export GOFLAGS=-mod=mod GOPROXY=off GOSUMDB=off GOTOOLCHAIN=local CGO_ENABLED=1
 mkdir -p bin work
 cp /repo/go.sum sim/go.sum 2>/dev/null
 race=""
 grep -q '"race_build": true' "$f" && race="-race"
-bin="/verif/bin/replay-$$"
+bin="$VERIF_DIR/bin/replay-$$"
 ( cd sim && go build -tags verif $race -o "$bin" ./cmd/sim ) || { echo "build failed" >&2; exit 2; }
 if [ -n "$race" ]; then
-  export GORACE="log_path=/verif/work/replayrace-$$ halt_on_error=0 exitcode=0 history_size=3 suppress_equal_stacks=0 suppress_equal_addresses=0"
+  export GORACE="log_path=$VERIF_DIR/work/replayrace-$$ halt_on_error=0 exitcode=0 history_size=3 suppress_equal_stacks=0 suppress_equal_addresses=0"
 fi
 "$bin" replay "$f"; rc=$?
-rm -f "$bin" /verif/work/replayrace-$$.*
+rm -f "$bin" $VERIF_DIR/work/replayrace-$$.*
 exit $rc
